@@ -15,7 +15,7 @@ FUNCTIONS = ["peltool.main (whole dispatch)", "peltool.deletePELFromPELId", "pel
              "peltool.parseAndWriteOutput", "every mode function of peltool.py"]
 HARNESSES = [
     {"fn": "h_dispatch", "cases": ["modesA", "modesB", "strings", "bmc"], "timeout": {"quick": 120, "thorough": 400}},
-    {"fn": "h_delete_id", "cases": ["top", "suboly", "none", "two", "pathid", "empty-top", "twotop"], "timeout": {"quick": 90, "thorough": 300}},
+    {"fn": "h_delete_id", "cases": ["top", "suboly", "none", "two", "pathid", "empty-top", "twotop", "meta"], "timeout": {"quick": 90, "thorough": 300}},
     {"fn": "h_delete_all", "cases": ["mixed", "empty-top", "non-regular"], "timeout": {"quick": 90, "thorough": 300}},
     {"fn": "h_json_names", "cases": ["plid-differs", "ext", "small-eid"], "timeout": {"quick": 90, "thorough": 300}},
 ]
@@ -147,6 +147,10 @@ def h_delete_id() -> bool:
         e, expect = "50000001", ["/pels/2024010100000000_50000001"]     # also in archive/: untouched
     elif CASE == "pathid":
         e, expect, path = "50000009", [], "/dump_50000009/logs"        # the id occurs in the directory path only
+    elif CASE == "meta":
+        # eight characters that are not an id but mean something to a pattern matcher: nothing is named by them
+        e = choice("meta", ["5000000.", "........", "5000000?", "[0-9]{8}", "5000000*", ".*000002"])
+        expect = []
     elif CASE == "twotop":
         e, expect = "50000002", None               # two top-level names contain the id (the PEL and its .json): at most one goes
     else:
@@ -166,8 +170,12 @@ def h_delete_id() -> bool:
         conds = [status == 0, len(removes) == 1, removes[0].startswith("/pels/2024010100000001_50000002") if removes else False,
                  not any(x[0] == "stdout" for x in w.events)]
         return verdict(sym_all(conds), obs={"removes": removes})
-    conds = [status == 0, removes == expect, ("stdout", "PEL not found", "\n") in w.events if not expect else
-             not any(x[0] == "stdout" for x in w.events)]
+    if CASE == "meta":
+        # (how the tool words its refusal is not part of the property: nothing may be removed or written)
+        conds = [removes == []]
+    else:
+        conds = [status == 0, removes == expect, ("stdout", "PEL not found", "\n") in w.events if not expect else
+                 not any(x[0] == "stdout" for x in w.events)]
     conds.append(not any(x[0] == "open_w" for x in w.events))
     return verdict(sym_all(conds), obs={"removes": removes, "events": [x[:2] for x in w.events]})
 
